@@ -100,7 +100,7 @@ def is_table_path(ctx: Ctx, t: Optional[T], state_params: Set[str]) -> Optional[
 
 
 def may_be_short_list(t: T) -> Optional[str]:
-    if t.op == "call" and t.a[0].op == "attr" and t.a[0].a[1] == "parse_vnodes":
+    if t.op == "call" and t.a[0].op == "attr" and t.a[0].a[1] in ("parse_vnodes", "vnode_generator"):
         return "result of the nested-lookup parser (empty when the syscall failed before any lookup)"
     if t.op == "comp" and t.a[0] == "list":
         return "filtered list comprehension"
@@ -129,11 +129,26 @@ def classify_pop(ctx: Ctx, p: POp, state_params: Set[str]):
         return None
     if p.kind == "unpack" and isinstance(p.key, int):
         # `a, b = xs`: needs exactly len(xs) == 2; tracked when the length of xs can be worked out from how it is built
-        b = _len_bounds(p.base, p.pc)
+        base_ = p.base
+        if base_.op == "call" and base_.a[0].op == "attr" and base_.a[0].a[0] in (PARSER, SELF) and not base_.a[2]:
+            # the result of a method of the parser: its return term, with the constant arguments put in
+            tp_ = ctx.repo.cls("traces_parser", "TracesParser")
+            m_ = tp_.methods.get(base_.a[0].a[1])
+            if m_ is not None and len(m_.args.args) == len(base_.a[1]) + 1:
+                mrec = ctx.interp.run(tp_.module, m_, self_cls=tp_)
+                rets_ = [r for r in mrec.returns if r.kind == "return"]
+                if not mrec.notes and len(rets_) == 1 and not mrec.is_generator:
+                    mapping = {param(a_.arg): v_ for a_, v_ in zip(m_.args.args[1:], base_.a[1]) if v_.op == "const"}
+                    base_ = sym.subst(rets_[0].value, mapping)
+        b = _len_bounds(base_, p.pc)
         if p.base == EVENTS and (b is None or b[1] is None or b[1] > p.key):
             # the window a decoder is handed holds one record or any number of them (START ... END, or every nested record a
             # composite selected): unpacking it into a fixed number of names raises for the others
             return ("unpack", f"the decoder's window, which holds any number of records (not always {p.key})")
+        if b is not None and b[0] >= p.key and (b[1] is None or b[1] > p.key) and b[0] != INF and \
+                any(may_be_short_list(x) for x in sym.walk(base_)):
+            return ("unpack", f"a sequence of {b[0]} or more items (built from {may_be_short_list(_short_source(base_)) or 'a list of any length'}, "
+                              f"padded but never cut)")
         if b is not None and b != (p.key, p.key) and b[0] < p.key:
             return ("unpack", f"a sequence of {b[0]}..{b[1] if b[1] is not None else 'any number of'} items (built from "
                               f"{may_be_short_list(_short_source(p.base)) or 'a list that may be short'})")
@@ -208,7 +223,7 @@ def _len_bounds0(t: T, pc=()):
         return (len(t.a[0]), len(t.a[0]))
     if t.op == "const" and isinstance(t.a[0], (tuple, str, bytes)):
         return (len(t.a[0]), len(t.a[0]))
-    if t.op == "call" and t.a[0].op == "attr" and t.a[0].a[1] == "parse_vnodes":
+    if t.op == "call" and t.a[0].op == "attr" and t.a[0].a[1] in ("parse_vnodes", "vnode_generator"):
         return (0, None)
     if t.op == "call" and t.a[0].op == "builtin" and t.a[0].a[0] in ("list", "tuple", "sorted", "reversed") and len(t.a[1]) == 1:
         return _len_bounds(t.a[1][0])
@@ -217,6 +232,15 @@ def _len_bounds0(t: T, pc=()):
         if b is None:
             return None
         return b if not t.a[2][0][2] else (0, b[1])
+    if t.op == "bin" and t.a[0] == "+" and t.a[2].op == "bin" and t.a[2].a[0] == "*":
+        # xs + [pad] * (K - len(xs)): padded up to K items, never cut down
+        for lst_, n_ in ((t.a[2].a[1], t.a[2].a[2]), (t.a[2].a[2], t.a[2].a[1])):
+            if lst_.op in ("list", "tuple") and len(lst_.a[0]) == 1 and n_.op == "bin" and n_.a[0] == "-" and ci(n_.a[1]) is not None \
+                    and n_.a[2] == T("call", (T("builtin", ("len",)), (t.a[1],), ())):
+                b_ = _len_bounds(t.a[1])
+                if b_ is not None:
+                    k_ = ci(n_.a[1])
+                    return (max(b_[0], k_), None if b_[1] is None else max(b_[1], k_))
     if t.op == "bin" and t.a[0] == "+":
         l, r = _len_bounds(t.a[1]), _len_bounds(t.a[2])
         if l is None or r is None:
@@ -399,6 +423,39 @@ def check(repo: Repo, run: Run) -> None:
     total = 0
     # ---- parser methods
     tp = repo.cls("traces_parser", "TracesParser")
+    # R7 the lookup that never happened has the shape of a lookup: the decoders of two-path calls test `record not in
+    # first.ktraces` and read `.path` of what parse_vnode gives back when the window holds no lookup at all
+    if "parse_vnode" in tp.methods:
+        prec = ctx.interp.run(tp.module, tp.methods["parse_vnode"], self_cls=tp)
+        n_fb = 0
+        for r_ in prec.returns:
+            v = r_.value
+            fields_ = None
+            if r_.kind != "return":
+                continue
+            if v.op == "new":
+                f_ = repo.lookup(v.a[0]) if isinstance(v.a[0], str) else None
+                if f_ and f_[0] == "class" and "__post_init__" in f_[2].methods:
+                    run.floor_failures.append(f"C07/R7: the empty lookup is a {f_[2].name} whose fields are settled in __post_init__: its "
+                                              f"shape is not decided")
+                    n_fb += 1
+                    continue
+                fields_ = dict(v.a[1])
+            elif v.op == "call" and v.a[0].op == "global" and v.a[0].a[0].endswith(".Vnode"):
+                names_ = ctx.interp.namedtuple_fields(v.a[0].a[0]) or []
+                fields_ = dict(zip(names_, v.a[1]))
+                fields_.update(dict(v.a[2]))
+            if fields_ is None:
+                continue
+            n_fb += 1
+            kt, pth_ = fields_.get("ktraces"), fields_.get("path")
+            bad = [nm for nm, val in (("ktraces", kt), ("path", pth_)) if val is not None and val == const(None)]
+            run.ob("R7", tp.module.name, "TracesParser.parse_vnode", "the lookup that never happened is an empty lookup, not a hole", not bad,
+                   "" if not bad else
+                   f"parse_vnode gives back a lookup whose {bad[0]} is None when the window holds no lookup: the decoders of two-path calls "
+                   f"(link, rename, mount ...) test `record not in first.ktraces` and raise TypeError, ending the whole stream",
+                   line=r_.lineno, nontrivial=bool(bad), witness="a rename() that failed before any path lookup")
+        run.floor("R7", "fallback results of parse_vnode", n_fb, 1)
     for name, fn in tp.methods.items():
         if name == "__init__":
             continue
